@@ -8,6 +8,7 @@ TECH = 'bounded model checking (CBMC/SAT) of C translated from the LLVM IR of th
 CLAIMS = {
  'C01': ('text,num,enc', 'K1.1 escape_string round-trip against an RFC 8259 un-escaper (all strings <= 4 B x both flags), K1.2 from_integer/dec_to_integer canonical integers (digit classes), K8.1 compact encoder text of short event sequences equals an independent rendering.'),
  'C02': ('text', 'K2.2 UTF-8 automata (validate, is_legal_utf8, to_codepoint, count_codepoints, utf32->utf8, surrogate classes) against the RFC 3629 / UTF-16 tables.'),
+ 'C03': ('dlim (source operations)', 'K3.3 the Source concept through which every binary parser reads its input - read, peek, ignore, read_span, read_chunk, eof, position on the real bytes_source (one contiguous buffer) and the real iterator_source (an iterator range refilled in chunks of 1..3) - behaves exactly like the reference array+position model for every sequence of 2 operations with symbolic kind and length over a symbolic file, so how the bytes are delivered is invisible to the parsers (Source-level clause only; the JSON push parser split-delivery kernels jtok/jparse run in the thorough tier, stream_source and cursors are outside reach).'),
  'C04': ('num', 'K4.1-K4.3 integer<->text conversions (dec_to_integer, to_integer, hex_to_integer, from_integer, integer_to_hex) against u128 reference arithmetic.'),
  'C05': ('slice (safety mode), typed', 'slice loops of JSONPath/JMESPath in safety mode (clang UBSan traps + CBMC pointer checks): no signed overflow, every element access in bounds; tuple/array conversion traits never index out of bounds or a non-array.'),
  'C06': ('cbor, enc', 'K6.1/K6.4 CBOR encoder o decoder round trip for every 64-bit integer/double/half/bool/null, shortest heads for every (major,length), stringref threshold table; container heads of the CBOR/MessagePack/UBJSON encoders denote exactly the declared length or are refused.'),
@@ -26,7 +27,6 @@ NA = {
  'C15': 'apply_patch is an undo log over pointer-rich DOM edits dispatched on string-valued members through vector<string> pointers; the atomicity argument is over heap histories that bit-precise BMC of the lowered IR does not reach; its lowerable leaf (pointer token/index syntax) is decided under C14.',
  'C19': "the property IS exception unwinding after bad_alloc; the only encoding route on this image (clang IR with -fno-exceptions -> C -> CBMC) has no unwinder/landing pads/destructors-on-unwind, and CBMC's C++ front end cannot parse libstdc++.",
  'C20': 'data-race freedom over all interleavings needs the whole heap-backed evaluator under a concurrency-aware engine; CBMC cannot parse the C++ and the IR route yields sequential C only.',
- 'C03': 'kernels jtok/jparse (split-delivery self-composition of the real parser) exist and found the leading-zero defect (fixed), but their jobs need 2-15 min each and several hit the cap under load: no bounded subset is decided reliably inside the budget yet (DESIGN 6.3).',
  'C16': 'the real mergepatch templates instantiate over a bounded model DOM and translate, but symbolic execution of the data-guarded recursion does not terminate within budget even at depth 1 (three model DOMs tried, DESIGN 6.3): not decided, so not claimed.',
 }
 def main():
